@@ -73,6 +73,9 @@ def main():
         rng = ctx.rng(mname)
         for pi, (tk, sk) in enumerate(pairs):
             for vi in range(2 if ctx.quick or ctx.worker else 4):
+                # one stream per (mesh, pair, variant): the sanitizer worker runs a sub-set of the parent's cases and must draw the
+                # same options and wavenumbers for the same case id
+                rng = ctx.rng(mname, tk, sk, vi)
                 r, s = (4, 4) if vi % 2 == 0 else (int(rng.integers(2, 8)), int(rng.integers(3, 7)))
                 par = O.params(api, r, s)
                 optsT = (S.draw_opts(rng, mesh, topo, *KA[tk], variant=vi)[0] or {}) if vi else {}
